@@ -233,6 +233,22 @@ def c03(tier, seed):
     return ck.finish()
 
 
+def c04(tier, seed):
+    ck = Check("C04", tier, seed, "exploration")
+    _sim_part(ck, "C04", tier, seed,
+              "the broker model acts as a conformant QoS 0/1/2 sender with uniquely tagged messages and MQTT retransmission rules (on session "
+              "resume PUBLISH+DUP if no PUBREC yet, else PUBREL, original order): crash-point sweep over reference workloads with inbound traffic "
+              "(reset at every byte boundary in both directions, 'ack batch delivered but write reported failed' at every client byte) and seeded "
+              "mixes with up to 8 inbound messages, sessions kept/lost; monitor: (a) every delivered PUBLISH/PUBREL answered with the same id within "
+              "5 virtual s on a connection that stays healthy, (b) PUBACK/PUBREC only after the PUBLISH, at most one PUBCOMP per delivered PUBREL and "
+              "never before it, (c) delivered topic/payload/properties identical, QoS 2 count <= 1 and = 1 once the broker received PUBCOMP, QoS 1 "
+              ">= 1 once it received PUBACK, (d) per QoS first deliveries in the broker's send order. " + SHAPE)
+    ck.require("sim.app_deliveries", 100)
+    ck.require("sim.pubrels_delivered", 50)
+    ck.require("sim.acked_inbound_messages", 100)
+    return ck.finish()
+
+
 def c05(tier, seed):
     ck = Check("C05", tier, seed, "exploration")
     _sim_part(ck, "C05", tier, seed,
@@ -293,7 +309,7 @@ def c14(tier, seed):
     return ck.finish()
 
 
-CHECKS = {"C01": c01, "C02": c02, "C03": c03, "C05": c05, "C06": c06, "C07": c07, "C13": c13, "C14": c14, "C17": c17, "C18": c18, "C19": c19, "C20": c20, "C16": c16, "C08": c08, "C11": c11}
+CHECKS = {"C01": c01, "C02": c02, "C03": c03, "C04": c04, "C05": c05, "C06": c06, "C07": c07, "C13": c13, "C14": c14, "C17": c17, "C18": c18, "C19": c19, "C20": c20, "C16": c16, "C08": c08, "C11": c11}
 
 
 def run(prop, tier, seed):
